@@ -115,6 +115,26 @@ def immutability_probes():
             pass
         if s != lw.State(list(occ)) or hash(s) != h0 or s.s != list(occ):
             out.append(("immutable", "State %s changed through an accessor" % (occ,), {"call": "State accessors"}))
+        # augmented assignment: `t += u` / `t *= k` rebind the NAME; every other holder of the old value (an alias, a dictionary key,
+        # an operand of an earlier sum) must keep seeing the old value
+        alias = s
+        d = {s: "kept"}
+        earlier = s + lw.State([4])
+        t = s
+        t += lw.State([1, 1])
+        t2 = s
+        try:
+            t2 *= 2
+        except TypeError:
+            pass
+        t3 = s
+        try:
+            t3 &= lw.State([0] * len(occ))
+        except TypeError:
+            pass
+        if alias.s != list(occ) or hash(alias) != h0 or lw.State(list(occ)) not in d or earlier.s != list(occ) + [4] or t.s != list(occ) + [1, 1]:
+            out.append(("immutable", "State %s: `t += u` changed the value other references hold (alias now %s, sum now %s, result %s)" % (occ, alias, earlier, t),
+                        {"call": "State.__iadd__"}))
     for lab in ([[0], [1, 2]], [[], [3]], [[0, 1], [], [2]]):
         import copy
         a = AnnotatedState(copy.deepcopy(lab))
@@ -139,6 +159,16 @@ def immutability_probes():
             out.append(("immutable", "AnnotatedState.__setitem__ accepted", {"call": "AnnotatedState.__setitem__"}))
         except Exception:  # noqa: BLE001
             pass
+        alias = a
+        b = a
+        b += AnnotatedState([[5]])
+        try:
+            b2 = a
+            b2 &= AnnotatedState([[] for _ in lab])
+        except TypeError:
+            pass
+        if alias is not a or len(a.s) != len(lab) or len(b.s) != len(lab) + 1:
+            out.append(("immutable", "AnnotatedState %s: `t += u` changed the value other references hold (now %s)" % (lab, a), {"call": "AnnotatedState.__iadd__"}))
         fresh = AnnotatedState(copy.deepcopy(lab))
         if a != fresh or hash(a) != h0 or sorted(map(sorted, a.s)) != sorted(map(sorted, lab)):
             out.append(("immutable", "AnnotatedState %s changed through an accessor (now %s)" % (lab, a), {"call": "AnnotatedState accessors"}))
